@@ -528,11 +528,13 @@ def field_of(flow, op):
     return None
 
 
-def ser4(p, res, rd, wr):
+def ser4(p, res, rd, wr, only=None, floor=28):
     pairs = 0
     rk = {self_ty_key(k): v for k, v in rd.items()}
     wk = {self_ty_key(k): v for k, v in wr.items()}
     for k in sorted(set(rk) | set(wk)):
+        if only is not None and not only(k):
+            continue
         if k not in rk or k not in wk:
             # a type that can only be written or only be read: not a round-trip pair
             res.notes.append("SER-4: %s has only %s" % (k, "a reader" if k in rk else "a writer"))
@@ -582,7 +584,7 @@ def ser4(p, res, rd, wr):
         else:
             res.bad("SER-4", k, "sequence", "write_to / read_from of %s disagree: %s" % (k, why), site=fr.where(),
                     detail={"writer": [[list(e) for e in t] for t in sorted(tw, key=repr)], "reader": [[list(e) for e in t] for t in sorted(tr, key=repr)]})
-    res.floor("SER-4", "writer/reader pairs", pairs, 28)
+    res.floor("SER-4", "writer/reader pairs", pairs, floor)
 
 
 def reader_fields(p, fn):
